@@ -29,6 +29,7 @@ def dispatch (line : String) : String :=
     | some "binop" | some "unop" => runC01 fields obs
     | some "index" => runC03 fields obs
     | some "assign" => runC04 fields obs
+    | some "aseq" => runC04 fields obs
     | some "concat" => runC11 fields obs
     | some "session" => runC05 fields obs
     | some "steps" => runC19 fields obs
